@@ -140,7 +140,7 @@ func (u *Unit) execInstr(fn *ssa.Function, st *State, ins ssa.Instruction) {
 		r := u.newRef(st, "mkslice")
 		hn, hs := u.elemHeap(et)
 		h := u.heap(st, hn, hs)
-		u.setHeap(st, hn, hs, sx("store", h, r, u.ty.constArray(SInt, u.ty.sortOf(et), u.ty.zero(et))))
+		u.setHeapTracked(st, hn, hs, sx("store", h, r, u.ty.constArray(SInt, u.ty.sortOf(et), u.ty.zero(et))), r, true)
 		ln, cp := u.val(st, x.Len), u.val(st, x.Cap)
 		u.safety(st, "makeslice", and(sx(">=", ln, "0"), sx(">=", cp, ln)), x.Pos())
 		u.setReg(st, x, sx("mk_slc", r, "0", ln, cp))
@@ -148,7 +148,7 @@ func (u *Unit) execInstr(fn *ssa.Function, st *State, ins ssa.Instruction) {
 		r := u.newRef(st, "mkmap")
 		mt := x.Type().Underlying().(*types.Map)
 		dn, ds, vn, vs := u.mapHeaps(x.Type())
-		u.setHeap(st, dn, ds, sx("store", u.heap(st, dn, ds), r, fmt.Sprintf("((as const %s) false)", arrSort(u.ty.sortOf(mt.Key()), SBool))))
+		u.setHeapTracked(st, dn, ds, sx("store", u.heap(st, dn, ds), r, fmt.Sprintf("((as const %s) false)", arrSort(u.ty.sortOf(mt.Key()), SBool))), r, true)
 		_ = vn
 		_ = vs
 		st.regs[x] = r
@@ -162,8 +162,9 @@ func (u *Unit) execInstr(fn *ssa.Function, st *State, ins ssa.Instruction) {
 		k, v := u.val(st, x.Key), u.val(st, x.Value)
 		_ = mt
 		dh, vh := u.heap(st, dn, ds), u.heap(st, vn, vs)
-		u.setHeap(st, dn, ds, sx("store", dh, m, sx("store", sx("select", dh, m), k, "true")))
-		u.setHeap(st, vn, vs, sx("store", vh, m, sx("store", sx("select", vh, m), k, v)))
+		// tracked: a loop that writes a map must have the map's heaps havocked at its header
+		u.setHeapTracked(st, dn, ds, sx("store", dh, m, sx("store", sx("select", dh, m), k, "true")), m, false)
+		u.setHeapTracked(st, vn, vs, sx("store", vh, m, sx("store", sx("select", vh, m), k, v)), m, false)
 	case *ssa.MakeClosure:
 		// closures are values identified by their function; bindings kept aside
 		f := x.Fn.(*ssa.Function)
@@ -551,7 +552,8 @@ func (u *Unit) rangeNext(st *State, x *ssa.Next) {
 	u.s.assume(implies(st.reach, implies(okc, and(sx("select", dom, k), not(sx("select", vis, k)), not(eq(rs.mapRef, "0"))))))
 	u.s.assume(implies(st.reach, implies(not(okc), fmt.Sprintf("(forall ((k %s)) (! (=> (select %s k) (select %s k)) :pattern ((select %s k))))", ks, dom, vis, vis))))
 	u.s.assume(implies(st.reach, implies(eq(rs.mapRef, "0"), not(okc))))
-	u.setHeap(st, rs.visited, arrSort(ks, SBool), ite(okc, sx("store", vis, k, "true"), vis))
+	// tracked: the set of visited keys is loop-carried state (havocked at the header of the ranging loop)
+	u.setHeapTracked(st, rs.visited, arrSort(ks, SBool), ite(okc, sx("store", vis, k, "true"), vis), "", false)
 	v := u.s.define("rangeval", u.ty.sortOf(mt.Elem()), sx("select", sx("select", u.heap(st, vn, vs), rs.mapRef), k))
 	u.s.assume(implies(st.reach, u.ty.rangeFact(v, mt.Elem(), u.alloc(st))))
 	u.s.assume(implies(st.reach, u.ty.rangeFact(k, mt.Key(), u.alloc(st))))
